@@ -555,10 +555,11 @@ Verify == /\ phase \in {"built", "mutated"}
 Mutate(m) == /\ phase = "verified" /\ verdict = "ok" /\ orig.rich
              /\ tx' = MutTx(KC, orig, m) /\ mut' = m /\ phase' = "mutated" /\ hist' = Append(hist, [op |-> "mut"])
              /\ UNCHANGED <<orig, verdict>>
-Next == \/ \E c \in CaseIds : Build(CaseOf(c))
-        \/ \E t \in RichBases : Build(t)
+(* guards outside the quantifiers: TLC enumerates the bound set before it looks at the action's guard *)
+Next == \/ (phase = "init" /\ \E c \in CaseIds : Build(CaseOf(c)))
+        \/ (phase = "init" /\ \E t \in RichBases : Build(t))
         \/ Verify
-        \/ \E m \in MutsFor(orig) : Mutate(m)
+        \/ (phase = "verified" /\ verdict = "ok" /\ orig.rich /\ \E m \in MutsFor(orig) : Mutate(m))
 Spec == Init /\ [][Next]_vars
 View == <<phase, tx, orig, mut, verdict>>
 Obs == verdict
